@@ -86,7 +86,7 @@ def phase_shapes():
     c["mux-src-inactive"] = S(N("S1", "Source", phases=["a"]), N("S2", "Source"), N("M", "PMux", ["S1", "S2"]),
                               N("L", "RLoad", "M"), phases=ph)
     c["loads-phased"] = S(N("S", "Source"), N("C", "Converter", "S"), N("L1", "PLoad", "C", phases=["a"]),
-                          N("L2", "ILoad", "C", phases=["a", "b"]), N("L3", "RLoad", "C", phases=["b"]), phases=ph)
+                          N("L2", "ILoad", "C", phases=["b"]), N("L3", "RLoad", "C", phases=["b"]), N("L4", "ILoad", "S", phases=["a", "b"]), phases=ph)
     return c
 
 
